@@ -244,7 +244,9 @@ Proof. intros [_ [nd [H _]]]. eapply nth_N_lt; eauto. Qed.
 
 (* ---- nesting and sibling order (only while no entity has been declared) ---- *)
 Definition N34 (bound : N) (nodes : list node_data) (cur : N) (opens : list N) : Prop :=
-  (forall i nd, nth_N nodes i = Some nd -> snd (nd_range nd) <= bound) /\
+  (forall i nd, nth_N nodes i = Some nd ->
+     fst (nd_range nd) <= bound /\ (i <> 0 -> snd (nd_range nd) <= bound)) /\
+  (forall nd, nth_N nodes 0 = Some nd -> nd_parent nd = None) /\
   (forall i nd pid, nth_N nodes i = Some nd -> nd_parent nd = Some pid ->
      exists pnd, nth_N nodes pid = Some pnd /\ fst (nd_range pnd) <= fst (nd_range nd) /\
        (snd (nd_range nd) <= snd (nd_range pnd) \/ In pid (opens ++ [0]))) /\
@@ -252,23 +254,27 @@ Definition N34 (bound : N) (nodes : list node_data) (cur : N) (opens : list N) :
      ~ In q opens /\ q < i /\
      exists qnd, nth_N nodes q = Some qnd /\ snd (nd_range qnd) <= fst (nd_range nd)) /\
   (forall pnd q, nth_N nodes cur = Some pnd -> nd_last_child pnd = Some q ->
-     ~ In q opens /\ q < len_N nodes) /\
+     ~ In q opens /\ q < len_N nodes /\ 0 < q) /\
   NoDup (opens ++ [0]).
+
+Ltac n34split := split; [|split; [|split; [|split; [|split]]]].
 
 Lemma N34_mono bound bound' nodes cur opens :
   bound <= bound' -> N34 bound nodes cur opens -> N34 bound' nodes cur opens.
 Proof.
-  intros Hb (H1 & H2 & H3 & H4 & H5). split; [|split; [|split; [|split]]]; auto.
-  intros i nd Hi. specialize (H1 i nd Hi). lia.
+  intros Hb (H1 & H0 & H2 & H3 & H4 & H5). n34split; auto.
+  intros i nd Hi. destruct (H1 i nd Hi) as [G1 G2]. split; [lia|]. intros Hne. specialize (G2 Hne). lia.
 Qed.
 
 Lemma N34_core bound nodes nodes' cur opens :
   core_pw nodes nodes' -> N34 bound nodes cur opens -> N34 bound nodes' cur opens.
 Proof.
-  intros Hpw (H1 & H2 & H3 & H4 & H5). pose proof Hpw as [HL HF].
-  split; [|split; [|split; [|split]]]; auto.
+  intros Hpw (H1 & H0 & H2 & H3 & H4 & H5). pose proof Hpw as [HL HF].
+  n34split; auto.
   - intros i nd' Hi. destruct (pw_back _ _ _ _ _ Hpw Hi) as [nd [Hnd (_ & _ & _ & Er & _)]].
     rewrite Er. eauto.
+  - intros nd' Hi. destruct (pw_back _ _ _ _ _ Hpw Hi) as [nd [Hnd (Ep & _)]].
+    rewrite Ep. eauto.
   - intros i nd' pid Hi Hp.
     destruct (pw_back _ _ _ _ _ Hpw Hi) as [nd [Hnd (Ep & _ & _ & Er & _)]].
     rewrite Ep in Hp. destruct (H2 i nd pid Hnd Hp) as [pnd [Hpn [G1 G2]]].
@@ -291,16 +297,19 @@ Lemma N34_app bound nodes pid kind r nodes' opens :
   fst r <= snd r -> bound <= fst r ->
   N34 (snd r) nodes' pid opens.
 Proof.
-  intros HA HV (H1 & H2 & H3 & H4 & H5) Hin Hlt Hr Hb.
+  intros HA HV (H1 & H0 & H2 & H3 & H4 & H5) Hin Hlt Hr Hb.
   pose proof HA as (HL & HF & pnd0 & ndn & Hp0 & Hn & N1 & N2 & N3 & N4 & N5).
   set (n := len_N nodes) in *.
-  assert (Hold : forall i nd, nth_N nodes i = Some nd -> snd (nd_range nd) <= fst r).
-  { intros i nd Hi. specialize (H1 i nd Hi). lia. }
-  split; [|split; [|split; [|split]]]; auto.
+  assert (Hnpos : 0 < n) by (apply nth_N_lt in Hp0; fold n in Hp0; lia).
+  n34split; auto.
   - intros i nd' Hi. destruct (AppSpec_back _ _ _ _ _ _ _ HA Hi) as
       [[_ [nd [Hnd (_ & _ & _ & Er & _)]]]|[_ [pnd (_ & _ & _ & _ & Er & _)]]].
-    + rewrite Er. specialize (Hold i nd Hnd). lia.
-    + rewrite Er. lia.
+    + rewrite Er. destruct (H1 i nd Hnd) as [G1 G2]. split; [lia|]. intros Hne. specialize (G2 Hne). lia.
+    + rewrite Er. split; [lia|]. intros _. lia.
+  - intros nd' Hi. destruct (AppSpec_back _ _ _ _ _ _ _ HA Hi) as
+      [[_ [nd [Hnd (Ep & _)]]]|[Ei _]].
+    + rewrite Ep. eauto.
+    + fold n in Ei. lia.
   - intros i nd' pid' Hi Hp. destruct (AppSpec_back _ _ _ _ _ _ _ HA Hi) as
       [[_ [nd [Hnd (Ep & _ & _ & Er & _)]]]|[_ [pnd (Hpn0 & Ep & _ & _ & Er & _)]]].
     + rewrite Ep in Hp. destruct (H2 i nd pid' Hnd Hp) as [pnd [Hpn [G1 G2]]].
@@ -309,7 +318,7 @@ Proof.
     + rewrite Ep in Hp. injection Hp as <-.
       destruct (HF pid pnd0 Hp0) as [pnd' [Hpn' (_ & _ & _ & Er' & _)]].
       exists pnd'. split; [exact Hpn'|]. rewrite Er, Er'.
-      pose proof (HV pid pnd0 Hp0) as (V1 & _). specialize (Hold pid pnd0 Hp0).
+      destruct (H1 pid pnd0 Hp0) as [G1 _].
       split; [lia|]. right. exact Hin.
   - intros i nd' q Hi Hq. destruct (AppSpec_back _ _ _ _ _ _ _ HA Hi) as
       [[_ [nd [Hnd (_ & Eq & _ & Er & _)]]]|[Ei [pnd (Hpn0 & _ & Eq & _ & Er & _)]]].
@@ -317,11 +326,12 @@ Proof.
       destruct (HF q qnd Hqn) as [qnd' [Hqn' (_ & _ & _ & Er' & _)]].
       split; [exact G1|]. split; [exact G2|]. exists qnd'. rewrite Er, Er'. auto.
     + assert (pnd = pnd0) by congruence. subst pnd. rewrite Eq in Hq.
-      destruct (H4 pnd0 q Hp0 Hq) as [G1 G2].
+      destruct (H4 pnd0 q Hp0 Hq) as [G1 [G2 G3]].
       destruct (nth_N_some nodes q G2) as [qnd Hqn].
       destruct (HF q qnd Hqn) as [qnd' [Hqn' (_ & _ & _ & Er' & _)]].
       split; [exact G1|]. split; [subst i; exact G2|]. exists qnd'.
-      split; [exact Hqn'|]. rewrite Er, Er'. eauto.
+      split; [exact Hqn'|]. rewrite Er, Er'. destruct (H1 q qnd Hqn) as [_ G4].
+      specialize (G4 ltac:(lia)). lia.
   - intros pnd' q Hc Hl. destruct (HF pid pnd0 Hp0) as [pnd2 [Hpn2 (_ & _ & _ & _ & El)]].
     assert (pnd2 = pnd') by congruence. subst pnd2. rewrite El, N.eqb_refl in Hl.
     injection Hl as <-. split; [|rewrite HL; lia].
@@ -334,8 +344,8 @@ Lemma N34_open bound nodes' n ndn pid opens :
   len_N nodes' = n + 1 -> Forall (fun x => x < n) opens -> 0 < n ->
   N34 bound nodes' n (n :: opens).
 Proof.
-  intros (H1 & H2 & H3 & H4 & H5) Hn Hl HL Hlt Hpos.
-  split; [|split; [|split; [|split]]]; auto.
+  intros (H1 & H0 & H2 & H3 & H4 & H5) Hn Hl HL Hlt Hpos.
+  n34split; auto.
   - intros i nd pid' Hi Hp. destruct (H2 i nd pid' Hi Hp) as [pnd [Hpn [G1 G2]]].
     exists pnd. split; [exact Hpn|]. split; [exact G1|]. destruct G2; [auto|]. right. cbn. auto.
   - intros i nd q Hi Hq. destruct (H3 i nd q Hi Hq) as [G1 [G2 G3]].
@@ -355,11 +365,8 @@ Lemma N34_close p e nodes x y ndx rr nodes' :
   In y (rr ++ [0]) ->
   N34 e nodes' y rr.
 Proof.
-  intros HC (H1 & H2 & H3 & H4 & H5) Hpe Hx Hpx [ynd [Hy Hly]] Hyin.
+  intros HC (H1 & H0 & H2 & H3 & H4 & H5) Hpe Hx Hpx [ynd [Hy Hly]] Hyin.
   pose proof HC as [HL HF].
-  assert (Hsame : forall j nd', nth_N nodes' j = Some nd' -> j <> x -> nth_N nodes j = Some nd').
-  { intros j nd' Hj Hne. destruct (pw_back _ _ _ _ _ HC Hj) as [nd [Hnd HR]].
-    destruct (N.eqb_spec j x); [contradiction|]. congruence. }
   assert (Hfst : forall j nd', nth_N nodes' j = Some nd' ->
             exists nd, nth_N nodes j = Some nd /\ fst (nd_range nd') = fst (nd_range nd) /\
               nd_parent nd' = nd_parent nd /\ nd_prev_sibling nd' = nd_prev_sibling nd /\
@@ -368,9 +375,12 @@ Proof.
   { intros j nd' Hj. destruct (pw_back _ _ _ _ _ HC Hj) as [nd [Hnd HR]].
     exists nd. split; [exact Hnd|]. destruct (j =? x); subst nd'; cbn; auto 6. }
   cbn [app] in H5. inversion H5 as [|? ? Hxn Hndp]; subst.
-  split; [|split; [|split; [|split]]]; auto.
-  - intros i nd' Hi. destruct (Hfst i nd' Hi) as [nd [Hnd (_ & _ & _ & _ & Es)]].
-    rewrite Es. destruct (i =? x); [lia|]. specialize (H1 i nd Hnd). lia.
+  assert (Hx0 : x <> 0) by (intros ->; apply Hxn; apply in_or_app; right; left; reflexivity).
+  n34split; auto.
+  - intros i nd' Hi. destruct (Hfst i nd' Hi) as [nd [Hnd (Ef & _ & _ & _ & Es)]].
+    rewrite Ef, Es. destruct (H1 i nd Hnd) as [G1 G2]. split; [lia|]. intros Hne.
+    destruct (i =? x); [lia|]. specialize (G2 Hne). lia.
+  - intros nd' Hi. destruct (Hfst 0 nd' Hi) as [nd [Hnd (_ & Ep & _)]]. rewrite Ep. eauto.
   - intros i nd' pid Hi Hp. destruct (Hfst i nd' Hi) as [nd [Hnd (Ef & Ep & _ & _ & Es)]].
     rewrite Ep in Hp. destruct (H2 i nd pid Hnd Hp) as [pnd [Hpn [G1 G2]]].
     destruct (HF pid pnd Hpn) as [pnd' [Hpn' HR']].
@@ -381,7 +391,10 @@ Proof.
     + right. assert (nd = ndx) by congruence. subst nd. assert (pid = y) by congruence. subst pid.
       exact Hyin.
     + destruct (N.eqb_spec pid x) as [->|Hpx'].
-      * left. specialize (H1 i nd Hnd). lia.
+      * left. destruct (H1 i nd Hnd) as [_ G3].
+        assert (Hi0 : i <> 0).
+        { intros ->. specialize (H0 nd Hnd). congruence. }
+        specialize (G3 Hi0). lia.
       * destruct G2 as [G2|G2]; [auto|]. right. cbn [app] in G2. destruct G2 as [G2|G2]; [congruence|exact G2].
   - intros i nd' q Hi Hq. destruct (Hfst i nd' Hi) as [nd [Hnd (Ef & _ & Eq & _ & _)]].
     rewrite Eq in Hq. destruct (H3 i nd q Hnd Hq) as [G1 [G2 [qnd [Hqn G3]]]].
@@ -392,9 +405,10 @@ Proof.
     exists qnd. split; [exact Hqn'|]. rewrite Ef. exact G3.
   - intros pnd' q Hc Hl. destruct (Hfst y pnd' Hc) as [pnd [Hpn (_ & _ & _ & El & _)]].
     assert (pnd = ynd) by congruence. subst pnd. rewrite El, Hly in Hl. injection Hl as <-.
-    split.
+    split; [|split].
     + intros Hi. apply Hxn. apply in_or_app. left. exact Hi.
     + rewrite HL. eapply nth_N_lt; eauto.
+    + lia.
 Qed.
 
 (* ---- the path: count, chain, bounds, order ---- *)
@@ -454,7 +468,7 @@ Proof.
   { eapply Forall_impl; [|exact H3]. intros x. apply OpenOk_lt. }
   split; [exact H1|]. split; [|split].
   - eapply linked_app; [exact HA|exact H2|]. intros He.
-    destruct (H4 He) as [Hb0 (_ & _ & _ & _ & Hnd)]. rewrite Hb0.
+    destruct (H4 He) as [Hb0 (_ & _ & _ & _ & _ & Hnd)]. rewrite Hb0.
     pose proof (linked_hd _ _ _ _ H2) as Hhd. rewrite Hb0 in Hhd.
     destruct opens as [|x rr]; cbn [app tl hd] in *; [auto|]. subst x.
     inversion Hnd; assumption.
@@ -498,6 +512,38 @@ Proof.
     destruct (z =? x); subst nd'; cbn; lia.
   - intros He. destruct (H4 He) as [Hb0 HN]. split; [exact Hb0|].
     eapply N34_close; eauto. rewrite <- Hb0. eapply linked_In; eauto.
+Qed.
+
+(* leaving a nested level: the nodes that existed when it was entered kept parent and range *)
+Definition frame_rel (nodes nodes' : list node_data) : Prop :=
+  forall i nd, nth_N nodes i = Some nd ->
+    exists nd', nth_N nodes' i = Some nd' /\ nd_parent nd' = nd_parent nd /\ nd_range nd' = nd_range nd.
+
+Lemma linked_frame (E E' : Prop) nodes nodes' : ~ E' -> frame_rel nodes nodes' ->
+  forall opens cur, linked E nodes cur opens -> linked E' nodes' cur opens.
+Proof.
+  intros HE HF. induction opens as [|x r IH]; intros cur H; cbn [linked] in *; [exact H|].
+  destruct H as [-> (nd & y & Hx & Hp & _ & Hr)]. split; [reflexivity|].
+  destruct (HF x nd Hx) as [nd' [Hx' [E1 E2]]].
+  exists nd', y. split; [exact Hx'|]. split; [congruence|]. split; [intros He; contradiction|].
+  apply IH; exact Hr.
+Qed.
+
+Lemma PathOk_frame (E E' : Prop) p bound bound' nodes nodes' cur npre opens :
+  ~ E' -> frame_rel nodes nodes' -> PathOk E p bound nodes cur npre opens ->
+  PathOk E' p bound' nodes' cur npre opens.
+Proof.
+  intros HE HF (H1 & H2 & H3 & H4). split; [exact H1|]. split; [|split].
+  - eapply linked_frame; eauto.
+  - eapply Forall_impl; [|exact H3]. intros x [G1 [nd [G2 G3]]]. split; [exact G1|].
+    destruct (HF x nd G2) as [nd' [G2' [_ Er]]]. exists nd'. rewrite Er. auto.
+  - intros He. contradiction.
+Qed.
+
+Lemma Frame_trans nodes nodes' : Frame nodes -> frame_rel nodes nodes' -> Frame nodes'.
+Proof.
+  intros H HF i nd0 H0. destruct (H i nd0 H0) as [nd [Hnd [E1 E2]]].
+  destruct (HF i nd Hnd) as [nd' [Hnd' [F1 F2]]]. exists nd'. split; [exact Hnd'|]. split; congruence.
 Qed.
 
 End Level.
